@@ -82,6 +82,7 @@ func runC05(c *core.Ctx) {
 	}
 	c05TypeGuard(c)
 	c05Reflect(c)
+	c05Ticker(c)
 }
 
 // ---------------------------------------------------------------- recover placement
